@@ -1314,6 +1314,32 @@ def build_kernels(D):
     K.append(("expect_super_csr", ["CSR", "CSR"], None,
               lambda a, e: gscalar(_exp.expect_super_csr(a[0], a[1])),
               lambda c, e: "G_expect_super_csr %s %s" % (c[0], c[1]), "optG"))
+    K.append(("matmul_dia_dense_dense", ["Dia", "Dense"], scal,
+              lambda a, e: raw(_mm.matmul_dia_dense_dense(a[0], a[1], complex(*e[0]))),
+              lambda c, e: "vO vD (G_matmul_dia_dense %s %s %s None)" % (c[0], c[1], cG(e[0])),
+              "optD"))
+    K.append(("matmul_dia_dense_dense[out]", ["Dia", "Dense", "Dense"], scal,
+              lambda a, e: raw(_mm.matmul_dia_dense_dense(a[0], a[1], complex(*e[0]), a[2].copy())),
+              lambda c, e: "vO vD (G_matmul_dia_dense %s %s %s (Some %s))" % (
+                  c[0], c[1], cG(e[0]), c[2]), "optD"))
+    K.append(("matmul_dense_dia_dense", ["Dense", "Dia"], scal,
+              lambda a, e: raw(_mm.matmul_dense_dia_dense(a[0], a[1], complex(*e[0]))),
+              lambda c, e: "vO vD (G_matmul_dense_dia %s %s %s None)" % (c[0], c[1], cG(e[0])),
+              "optD"))
+    K.append(("matmul_dense_dia_dense[out]", ["Dense", "Dia", "Dense"], scal,
+              lambda a, e: raw(_mm.matmul_dense_dia_dense(a[0], a[1], complex(*e[0]), a[2].copy())),
+              lambda c, e: "vO vD (G_matmul_dense_dia %s %s %s (Some %s))" % (
+                  c[0], c[1], cG(e[0]), c[2]), "optD"))
+    K.append(("matmul_dia", ["Dia", "Dia"], scal,
+              lambda a, e: raw(_mm.matmul_dia(a[0], a[1], complex(*e[0]))),
+              lambda c, e: "vO vA (G_matmul_dia %s %s %s)" % (c[0], c[1], cG(e[0])), "optA"))
+    _pow = _m("pow")
+
+    def expo(rng):
+        return (rng.choice([0, 1, 2, 3, 4, 5, 6, 7, 9]),)
+    K.append(("pow_csr", ["CSR"], expo,
+              lambda a, e: raw(_pow.pow_csr(a[0], e[0])),
+              lambda c, e: "vO vC (G_pow_csr %s %s)" % (c[0], cnat(e[0])), "optC"))
     _kron = _m("kron")
     K.append(("kron_csr", ["CSR", "CSR"], None,
               lambda a, e: raw(_kron.kron_csr(a[0], a[1])),
@@ -1368,9 +1394,11 @@ def correspondence(ctx, D, rng, ncases):
     dv = dist.setdefault("corr_variant", {})
     weight = {"add_csr": 6, "isequal_dia": 3, "reshape_csr": 6, "reshape_dense": 2,
               "column_stack_csr": 2, "column_unstack_dense": 4, "column_unstack_csr": 2,
-              "column_stack_dense": 2, "kron_csr": 3, "dia.from_csr": 3, "add_dia": 6, "clean_dia": 2,
+              "column_stack_dense": 2, "kron_csr": 3, "pow_csr": 3, "dia.from_csr": 3, "add_dia": 6, "clean_dia": 2,
               "tidyup_dia": 2, "matmul_csr": 6,
               "matmul_csr_dense_dense": 3, "matmul_csr_dense_dense[out]": 4,
+              "matmul_dia_dense_dense": 3, "matmul_dia_dense_dense[out]": 3,
+              "matmul_dense_dia_dense": 3, "matmul_dense_dia_dense[out]": 3, "matmul_dia": 5,
               "inner_csr": 3, "inner_op_csr": 3, "inner_op_data[csr]": 2, "expect_csr": 4,
               "expect_data[csr,ket]": 2, "expect_super_csr": 3, "csr.from_dense": 2, "csr.from_dia": 2, "add_dense": 3, "iadd_dense": 4,
               "dia.from_dense[auto_tidyup=False]": 2}
@@ -1379,6 +1407,8 @@ def correspondence(ctx, D, rng, ncases):
         name, types, extra_gen, real, coqexpr, kind = K[it % len(K)][:6]
         prep = K[it % len(K)][6] if len(K[it % len(K)]) > 6 else None
         cls = rng.choice(SHAPE_CLASSES)
+        if name == "pow_csr":
+            cls = rng.choice(["1x1", "square", "square", "square", "tall"])
         if name.startswith("trace") or name == "isdiag_csr":
             cls = rng.choice(["1x1", "square", "square", "tall"])
         shape = gen_shape(rng, cls, big=not ctx.quick)
@@ -1406,7 +1436,8 @@ def correspondence(ctx, D, rng, ncases):
         elif name.startswith("column_unstack"):
             r_, c_ = rng.randint(1, 5), rng.randint(1, 5)
             shapes = [(r_ * c_, 1) if rng.random() > 0.05 else (r_ * c_, 2)]
-        elif name.startswith("matmul_csr"):
+        elif name.startswith("matmul_csr") or name.startswith("matmul_dia") \
+                or name.startswith("matmul_dense_dia"):
             k = rng.choice([1, 1, 2, 3, 4, 6])
             inner = shape[1] + (1 if rng.random() < 0.08 else 0)
             shapes = [shape, (inner, k), (shape[0] + (1 if rng.random() < 0.05 else 0), k)][:len(types)]
@@ -1710,7 +1741,7 @@ def run(ctx):
 
     vlib.standard_proof_step(ctx, ["Props/C01.vo"], ["Props/C01.v"], search)
 
-    ncorr = 960 if ctx.quick else 8000
+    ncorr = 1200 if ctx.quick else 9000
     ctx.log("correspondence: %d kernel cases" % ncorr)
     phase(ctx, "correspondence", lambda: correspondence(ctx, D, rng, ncorr))
     ctx.log("dispatcher table validation")
